@@ -566,6 +566,7 @@ def write_evidence(mod, tier, seed, total, wall, n_viol, lines, capped, known=0,
             'scenarios_refused_by_flex': total.refused,
             'scenarios_unbuildable': total.unbuildable,
             'distinct_event_logs': len(total.hashes),
+            'event_log_digest': hashlib.sha256('|'.join(sorted(str(h) for h in total.hashes)).encode()).hexdigest()[:24],
             'runs_per_hour': int(total.evaluations / wall * 3600) if wall > 0 else 0,
             'simulated_time': 'not applicable: neither flex nor its scanners read a clock',
             'faults_injected': faults,
